@@ -188,6 +188,9 @@ def generate(rnd: random.Random) -> dict[str, Any]:
         dirs.append(rnd.choice(["empty_dir", "docs/empty", f"{mod}_empty/inner"]))
     if rnd.random() < 0.2:
         files[rnd.choice(["stray.pyc", "tests/__pycache__/t.cpython-312.pyc", "docs/__pycache__/conf.pyc"])] = "\0"
+    if rnd.random() < 0.08:
+        host = rnd.choice(pkg_dirs) if pkg_dirs else "docs"
+        files[f"{host}/{rnd.choice(['donn\u00e9es.txt', 'na\u00efve.py', '\u65e5\u672c.json'])}"] = "x\n"
     # tables built from what exists
     all_files = sorted(files)
     all_dirs = sorted({"/".join(p.split("/")[:i]) for p in all_files for i in range(1, len(p.split("/")))} | set(dirs))
@@ -202,9 +205,6 @@ def generate(rnd: random.Random) -> dict[str, Any]:
         p, isd = pick()
         pat = _derive_pattern(rnd, p, isd) if rnd.random() < 0.85 else rnd.choice(["nothing_here/*", "**/*.json", "docs", "tests"])
         f = rnd.choice(FORMATS)
-        wheel_visible = f is not None and "wheel" in (f if isinstance(f, list) else [f])
-        if wheel_visible and _hits_pkginfo(pat):
-            continue
         include.append(pat if f is None and rnd.random() < 0.5 else ({"path": pat} if f is None else {"path": pat, "format": f}))
     exclude: list[str] = []
     for _ in range(rnd.choice([0, 0, 1, 1, 2, 3])):
@@ -213,10 +213,11 @@ def generate(rnd: random.Random) -> dict[str, Any]:
         if pat in ("**/*.py", "**", "**/*") and rnd.random() < 0.8:
             continue
         exclude.append(pat)
-    if packages is not None:
-        packages = [p for p in packages if not ("wheel" in (p.get("format") or ["wheel"]) and _hits_pkginfo(p["include"]) and "from" not in p)]
-        if not packages:
-            packages = None
+    if rnd.random() < 0.04:
+        include.append({"path": rnd.choice(["*", "*-INFO", "[A-Z]*"]), "format": ["sdist", "wheel"]})
+    legal_here = [f for f in all_files if "/" not in f and f.split(".")[0].split("-")[0] in ("LICENSE", "LICENCE", "COPYING", "AUTHORS", "NOTICE")]
+    if legal_here and rnd.random() < 0.12:
+        exclude.append(rnd.choice(legal_here + ["LICEN*", "COPYING*"]))
     git: dict[str, Any] | None = None
     if rnd.random() < 0.55:
         lines: list[str] = []
@@ -242,6 +243,8 @@ def generate(rnd: random.Random) -> dict[str, Any]:
         for k2, v in ign.items():
             files[k2] = v
         git = {"tracked": rnd.random() < 0.3}
+        if rnd.random() < 0.1:
+            git["subdir"] = rnd.choice(["pkgs/" + mod, "python", "a/b/c"])
     return {"name": name, "version": rnd.choice(["0.1.0", "1.2.3", "2024.1", "1.0.0rc1"]), "files": files, "dirs": dirs,
             "packages": packages, "include": include, "exclude": exclude, "readme": readme, "scripts": scripts,
             "console": console, "git": git}
@@ -309,24 +312,28 @@ def git(root: Path, *args: str) -> str:
                           capture_output=True, text=True).stdout
 
 
-def materialise(spec: dict[str, Any], root: Path) -> None:
-    root.mkdir(parents=True, exist_ok=True)
+def materialise(spec: dict[str, Any], root: Path) -> Path:
+    """write the project; returns the project directory (`root`, or `root/<git.subdir>` when the project is a
+    sub-directory of the git work tree rooted at `root`)"""
+    g = spec.get("git")
+    proj = root / g["subdir"] if g and g.get("subdir") else root
+    proj.mkdir(parents=True, exist_ok=True)
     for d in spec.get("dirs", []):
-        (root / d).mkdir(parents=True, exist_ok=True)
+        (proj / d).mkdir(parents=True, exist_ok=True)
     for rel, text in spec["files"].items():
-        p = root / rel
+        p = proj / rel
         p.parent.mkdir(parents=True, exist_ok=True)
         p.write_bytes(text.encode("utf-8", "surrogateescape"))
         if rel.endswith(".sh"):
             p.chmod(0o755)
-    (root / "pyproject.toml").write_text(pyproject_text(spec), encoding="utf-8")
-    g = spec.get("git")
+    (proj / "pyproject.toml").write_text(pyproject_text(spec), encoding="utf-8")
     if g is not None:
         git(root, "init", "-q")
         if g.get("tracked"):
             # some files are tracked: `ls-files --others` only reports untracked ignored files
             git(root, "add", "-A")
             git(root, "commit", "-q", "-m", "init", "--no-verify")
+    return proj
 
 
 def listing(root: Path) -> list[tuple[str, bool]]:
